@@ -158,79 +158,169 @@ section instances
 open GoSrc.EncTypes
 
 theorem wBool_shape (oracle : Nat → Bytes) (field : Int) (enc : Buf) (v : GoVal .bool) :
-    wBool oracle field enc v = gwSingle oracle (¬ (v = true)) 0 (varint (Go.encodeBool64 v)) field enc v := rfl
+    wBool oracle field enc v = gwSingle oracle (¬ (v = true)) 0 (varint (Go.encodeBool64 v)) field enc v := by
+  first
+  | rfl
+  | (unfold wBool gwSingle; simp only [GoBuf.appendTag, GoBuf.appendVarint, GoBuf.appendFixed32, GoBuf.appendFixed64, GoBuf.appendBytes, bind, Res.bind, pure]; grind)
 theorem wAlwaysBool_shape (oracle : Nat → Bytes) (field : Int) (enc : Buf) (v : GoVal .bool) :
-    wAlwaysBool oracle field enc v = gwAlways oracle 0 (varint (Go.encodeBool64 v)) field enc v := rfl
+    wAlwaysBool oracle field enc v = gwAlways oracle 0 (varint (Go.encodeBool64 v)) field enc v := by
+  first
+  | rfl
+  | (unfold wAlwaysBool gwAlways; simp only [GoBuf.appendTag, GoBuf.appendVarint, GoBuf.appendFixed32, GoBuf.appendFixed64, GoBuf.appendBytes, bind, Res.bind, pure]; grind)
 
 theorem wInt32_shape (oracle : Nat → Bytes) (field : Int) (enc : Buf) (v : GoVal .int32) :
-    wInt32 oracle field enc v = gwSingle oracle (v = (0 : Int)) 0 (varint (Go.toU 64 v)) field enc v := rfl
+    wInt32 oracle field enc v = gwSingle oracle (v = (0 : Int)) 0 (varint (Go.toU 64 v)) field enc v := by
+  first
+  | rfl
+  | (unfold wInt32 gwSingle; simp only [GoBuf.appendTag, GoBuf.appendVarint, GoBuf.appendFixed32, GoBuf.appendFixed64, GoBuf.appendBytes, bind, Res.bind, pure]; grind)
 theorem wAlwaysInt32_shape (oracle : Nat → Bytes) (field : Int) (enc : Buf) (v : GoVal .int32) :
-    wAlwaysInt32 oracle field enc v = gwAlways oracle 0 (varint (Go.toU 64 v)) field enc v := rfl
+    wAlwaysInt32 oracle field enc v = gwAlways oracle 0 (varint (Go.toU 64 v)) field enc v := by
+  first
+  | rfl
+  | (unfold wAlwaysInt32 gwAlways; simp only [GoBuf.appendTag, GoBuf.appendVarint, GoBuf.appendFixed32, GoBuf.appendFixed64, GoBuf.appendBytes, bind, Res.bind, pure]; grind)
 
 theorem wInt64_shape (oracle : Nat → Bytes) (field : Int) (enc : Buf) (v : GoVal .int64) :
-    wInt64 oracle field enc v = gwSingle oracle (v = (0 : Int)) 0 (varint (Go.toU 64 v)) field enc v := rfl
+    wInt64 oracle field enc v = gwSingle oracle (v = (0 : Int)) 0 (varint (Go.toU 64 v)) field enc v := by
+  first
+  | rfl
+  | (unfold wInt64 gwSingle; simp only [GoBuf.appendTag, GoBuf.appendVarint, GoBuf.appendFixed32, GoBuf.appendFixed64, GoBuf.appendBytes, bind, Res.bind, pure]; grind)
 theorem wAlwaysInt64_shape (oracle : Nat → Bytes) (field : Int) (enc : Buf) (v : GoVal .int64) :
-    wAlwaysInt64 oracle field enc v = gwAlways oracle 0 (varint (Go.toU 64 v)) field enc v := rfl
+    wAlwaysInt64 oracle field enc v = gwAlways oracle 0 (varint (Go.toU 64 v)) field enc v := by
+  first
+  | rfl
+  | (unfold wAlwaysInt64 gwAlways; simp only [GoBuf.appendTag, GoBuf.appendVarint, GoBuf.appendFixed32, GoBuf.appendFixed64, GoBuf.appendBytes, bind, Res.bind, pure]; grind)
 
 theorem wUint32_shape (oracle : Nat → Bytes) (field : Int) (enc : Buf) (v : GoVal .uint32) :
-    wUint32 oracle field enc v = gwSingle oracle (v = 0) 0 (varint v) field enc v := rfl
+    wUint32 oracle field enc v = gwSingle oracle (v = 0) 0 (varint v) field enc v := by
+  first
+  | rfl
+  | (unfold wUint32 gwSingle; simp only [GoBuf.appendTag, GoBuf.appendVarint, GoBuf.appendFixed32, GoBuf.appendFixed64, GoBuf.appendBytes, bind, Res.bind, pure]; grind)
 theorem wAlwaysUint32_shape (oracle : Nat → Bytes) (field : Int) (enc : Buf) (v : GoVal .uint32) :
-    wAlwaysUint32 oracle field enc v = gwAlways oracle 0 (varint v) field enc v := rfl
+    wAlwaysUint32 oracle field enc v = gwAlways oracle 0 (varint v) field enc v := by
+  first
+  | rfl
+  | (unfold wAlwaysUint32 gwAlways; simp only [GoBuf.appendTag, GoBuf.appendVarint, GoBuf.appendFixed32, GoBuf.appendFixed64, GoBuf.appendBytes, bind, Res.bind, pure]; grind)
 
 theorem wUint64_shape (oracle : Nat → Bytes) (field : Int) (enc : Buf) (v : GoVal .uint64) :
-    wUint64 oracle field enc v = gwSingle oracle (v = 0) 0 (varint v) field enc v := rfl
+    wUint64 oracle field enc v = gwSingle oracle (v = 0) 0 (varint v) field enc v := by
+  first
+  | rfl
+  | (unfold wUint64 gwSingle; simp only [GoBuf.appendTag, GoBuf.appendVarint, GoBuf.appendFixed32, GoBuf.appendFixed64, GoBuf.appendBytes, bind, Res.bind, pure]; grind)
 theorem wAlwaysUint64_shape (oracle : Nat → Bytes) (field : Int) (enc : Buf) (v : GoVal .uint64) :
-    wAlwaysUint64 oracle field enc v = gwAlways oracle 0 (varint v) field enc v := rfl
+    wAlwaysUint64 oracle field enc v = gwAlways oracle 0 (varint v) field enc v := by
+  first
+  | rfl
+  | (unfold wAlwaysUint64 gwAlways; simp only [GoBuf.appendTag, GoBuf.appendVarint, GoBuf.appendFixed32, GoBuf.appendFixed64, GoBuf.appendBytes, bind, Res.bind, pure]; grind)
 
 theorem wSint32_shape (oracle : Nat → Bytes) (field : Int) (enc : Buf) (v : GoVal .sint32) :
-    wSint32 oracle field enc v = gwSingle oracle (v = (0 : Int)) 0 (varint (Go.encodeZigZag32 v)) field enc v := rfl
+    wSint32 oracle field enc v = gwSingle oracle (v = (0 : Int)) 0 (varint (Go.encodeZigZag32 v)) field enc v := by
+  first
+  | rfl
+  | (unfold wSint32 gwSingle; simp only [GoBuf.appendTag, GoBuf.appendVarint, GoBuf.appendFixed32, GoBuf.appendFixed64, GoBuf.appendBytes, bind, Res.bind, pure]; grind)
 theorem wAlwaysSint32_shape (oracle : Nat → Bytes) (field : Int) (enc : Buf) (v : GoVal .sint32) :
-    wAlwaysSint32 oracle field enc v = gwAlways oracle 0 (varint (Go.encodeZigZag32 v)) field enc v := rfl
+    wAlwaysSint32 oracle field enc v = gwAlways oracle 0 (varint (Go.encodeZigZag32 v)) field enc v := by
+  first
+  | rfl
+  | (unfold wAlwaysSint32 gwAlways; simp only [GoBuf.appendTag, GoBuf.appendVarint, GoBuf.appendFixed32, GoBuf.appendFixed64, GoBuf.appendBytes, bind, Res.bind, pure]; grind)
 
 theorem wSint64_shape (oracle : Nat → Bytes) (field : Int) (enc : Buf) (v : GoVal .sint64) :
-    wSint64 oracle field enc v = gwSingle oracle (v = (0 : Int)) 0 (varint (Go.encodeZigZag v)) field enc v := rfl
+    wSint64 oracle field enc v = gwSingle oracle (v = (0 : Int)) 0 (varint (Go.encodeZigZag v)) field enc v := by
+  first
+  | rfl
+  | (unfold wSint64 gwSingle; simp only [GoBuf.appendTag, GoBuf.appendVarint, GoBuf.appendFixed32, GoBuf.appendFixed64, GoBuf.appendBytes, bind, Res.bind, pure]; grind)
 theorem wAlwaysSint64_shape (oracle : Nat → Bytes) (field : Int) (enc : Buf) (v : GoVal .sint64) :
-    wAlwaysSint64 oracle field enc v = gwAlways oracle 0 (varint (Go.encodeZigZag v)) field enc v := rfl
+    wAlwaysSint64 oracle field enc v = gwAlways oracle 0 (varint (Go.encodeZigZag v)) field enc v := by
+  first
+  | rfl
+  | (unfold wAlwaysSint64 gwAlways; simp only [GoBuf.appendTag, GoBuf.appendVarint, GoBuf.appendFixed32, GoBuf.appendFixed64, GoBuf.appendBytes, bind, Res.bind, pure]; grind)
 
 theorem wFixed32_shape (oracle : Nat → Bytes) (field : Int) (enc : Buf) (v : GoVal .fixed32) :
-    wFixed32 oracle field enc v = gwSingle oracle (v = 0) 5 (fixed32 v) field enc v := rfl
+    wFixed32 oracle field enc v = gwSingle oracle (v = 0) 5 (fixed32 v) field enc v := by
+  first
+  | rfl
+  | (unfold wFixed32 gwSingle; simp only [GoBuf.appendTag, GoBuf.appendVarint, GoBuf.appendFixed32, GoBuf.appendFixed64, GoBuf.appendBytes, bind, Res.bind, pure]; grind)
 theorem wAlwaysFixed32_shape (oracle : Nat → Bytes) (field : Int) (enc : Buf) (v : GoVal .fixed32) :
-    wAlwaysFixed32 oracle field enc v = gwAlways oracle 5 (fixed32 v) field enc v := rfl
+    wAlwaysFixed32 oracle field enc v = gwAlways oracle 5 (fixed32 v) field enc v := by
+  first
+  | rfl
+  | (unfold wAlwaysFixed32 gwAlways; simp only [GoBuf.appendTag, GoBuf.appendVarint, GoBuf.appendFixed32, GoBuf.appendFixed64, GoBuf.appendBytes, bind, Res.bind, pure]; grind)
 
 theorem wSfixed32_shape (oracle : Nat → Bytes) (field : Int) (enc : Buf) (v : GoVal .sfixed32) :
-    wSfixed32 oracle field enc v = gwSingle oracle (v = (0 : Int)) 5 (fixed32 (Go.toU 32 v)) field enc v := rfl
+    wSfixed32 oracle field enc v = gwSingle oracle (v = (0 : Int)) 5 (fixed32 (Go.toU 32 v)) field enc v := by
+  first
+  | rfl
+  | (unfold wSfixed32 gwSingle; simp only [GoBuf.appendTag, GoBuf.appendVarint, GoBuf.appendFixed32, GoBuf.appendFixed64, GoBuf.appendBytes, bind, Res.bind, pure]; grind)
 theorem wAlwaysSfixed32_shape (oracle : Nat → Bytes) (field : Int) (enc : Buf) (v : GoVal .sfixed32) :
-    wAlwaysSfixed32 oracle field enc v = gwAlways oracle 5 (fixed32 (Go.toU 32 v)) field enc v := rfl
+    wAlwaysSfixed32 oracle field enc v = gwAlways oracle 5 (fixed32 (Go.toU 32 v)) field enc v := by
+  first
+  | rfl
+  | (unfold wAlwaysSfixed32 gwAlways; simp only [GoBuf.appendTag, GoBuf.appendVarint, GoBuf.appendFixed32, GoBuf.appendFixed64, GoBuf.appendBytes, bind, Res.bind, pure]; grind)
 
 theorem wFloat_shape (oracle : Nat → Bytes) (field : Int) (enc : Buf) (v : GoVal .float) :
-    wFloat oracle field enc v = gwSingle oracle ((Go.float32bits v) = 0) 5 (fixed32 (Go.float32bits v)) field enc v := rfl
+    wFloat oracle field enc v = gwSingle oracle ((Go.float32bits v) = 0) 5 (fixed32 (Go.float32bits v)) field enc v := by
+  first
+  | rfl
+  | (unfold wFloat gwSingle; simp only [GoBuf.appendTag, GoBuf.appendVarint, GoBuf.appendFixed32, GoBuf.appendFixed64, GoBuf.appendBytes, bind, Res.bind, pure]; grind)
 theorem wAlwaysFloat_shape (oracle : Nat → Bytes) (field : Int) (enc : Buf) (v : GoVal .float) :
-    wAlwaysFloat oracle field enc v = gwAlways oracle 5 (fixed32 (Go.float32bits v)) field enc v := rfl
+    wAlwaysFloat oracle field enc v = gwAlways oracle 5 (fixed32 (Go.float32bits v)) field enc v := by
+  first
+  | rfl
+  | (unfold wAlwaysFloat gwAlways; simp only [GoBuf.appendTag, GoBuf.appendVarint, GoBuf.appendFixed32, GoBuf.appendFixed64, GoBuf.appendBytes, bind, Res.bind, pure]; grind)
 
 theorem wFixed64_shape (oracle : Nat → Bytes) (field : Int) (enc : Buf) (v : GoVal .fixed64) :
-    wFixed64 oracle field enc v = gwSingle oracle (v = 0) 1 (fixed64 v) field enc v := rfl
+    wFixed64 oracle field enc v = gwSingle oracle (v = 0) 1 (fixed64 v) field enc v := by
+  first
+  | rfl
+  | (unfold wFixed64 gwSingle; simp only [GoBuf.appendTag, GoBuf.appendVarint, GoBuf.appendFixed32, GoBuf.appendFixed64, GoBuf.appendBytes, bind, Res.bind, pure]; grind)
 theorem wAlwaysFixed64_shape (oracle : Nat → Bytes) (field : Int) (enc : Buf) (v : GoVal .fixed64) :
-    wAlwaysFixed64 oracle field enc v = gwAlways oracle 1 (fixed64 v) field enc v := rfl
+    wAlwaysFixed64 oracle field enc v = gwAlways oracle 1 (fixed64 v) field enc v := by
+  first
+  | rfl
+  | (unfold wAlwaysFixed64 gwAlways; simp only [GoBuf.appendTag, GoBuf.appendVarint, GoBuf.appendFixed32, GoBuf.appendFixed64, GoBuf.appendBytes, bind, Res.bind, pure]; grind)
 
 theorem wSfixed64_shape (oracle : Nat → Bytes) (field : Int) (enc : Buf) (v : GoVal .sfixed64) :
-    wSfixed64 oracle field enc v = gwSingle oracle (v = (0 : Int)) 1 (fixed64 (Go.toU 64 v)) field enc v := rfl
+    wSfixed64 oracle field enc v = gwSingle oracle (v = (0 : Int)) 1 (fixed64 (Go.toU 64 v)) field enc v := by
+  first
+  | rfl
+  | (unfold wSfixed64 gwSingle; simp only [GoBuf.appendTag, GoBuf.appendVarint, GoBuf.appendFixed32, GoBuf.appendFixed64, GoBuf.appendBytes, bind, Res.bind, pure]; grind)
 theorem wAlwaysSfixed64_shape (oracle : Nat → Bytes) (field : Int) (enc : Buf) (v : GoVal .sfixed64) :
-    wAlwaysSfixed64 oracle field enc v = gwAlways oracle 1 (fixed64 (Go.toU 64 v)) field enc v := rfl
+    wAlwaysSfixed64 oracle field enc v = gwAlways oracle 1 (fixed64 (Go.toU 64 v)) field enc v := by
+  first
+  | rfl
+  | (unfold wAlwaysSfixed64 gwAlways; simp only [GoBuf.appendTag, GoBuf.appendVarint, GoBuf.appendFixed32, GoBuf.appendFixed64, GoBuf.appendBytes, bind, Res.bind, pure]; grind)
 
 theorem wDouble_shape (oracle : Nat → Bytes) (field : Int) (enc : Buf) (v : GoVal .double) :
-    wDouble oracle field enc v = gwSingle oracle ((Go.float64bits v) = 0) 1 (fixed64 (Go.float64bits v)) field enc v := rfl
+    wDouble oracle field enc v = gwSingle oracle ((Go.float64bits v) = 0) 1 (fixed64 (Go.float64bits v)) field enc v := by
+  first
+  | rfl
+  | (unfold wDouble gwSingle; simp only [GoBuf.appendTag, GoBuf.appendVarint, GoBuf.appendFixed32, GoBuf.appendFixed64, GoBuf.appendBytes, bind, Res.bind, pure]; grind)
 theorem wAlwaysDouble_shape (oracle : Nat → Bytes) (field : Int) (enc : Buf) (v : GoVal .double) :
-    wAlwaysDouble oracle field enc v = gwAlways oracle 1 (fixed64 (Go.float64bits v)) field enc v := rfl
+    wAlwaysDouble oracle field enc v = gwAlways oracle 1 (fixed64 (Go.float64bits v)) field enc v := by
+  first
+  | rfl
+  | (unfold wAlwaysDouble gwAlways; simp only [GoBuf.appendTag, GoBuf.appendVarint, GoBuf.appendFixed32, GoBuf.appendFixed64, GoBuf.appendBytes, bind, Res.bind, pure]; grind)
 
 theorem wString_shape (oracle : Nat → Bytes) (field : Int) (enc : Buf) (v : GoVal .string) :
-    wString oracle field enc v = gwSingle oracle ((Go.len v) = (0 : Int)) 2 (lenPrefixed v) field enc v := rfl
+    wString oracle field enc v = gwSingle oracle ((Go.len v) = (0 : Int)) 2 (lenPrefixed v) field enc v := by
+  first
+  | rfl
+  | (unfold wString gwSingle; simp only [GoBuf.appendTag, GoBuf.appendVarint, GoBuf.appendFixed32, GoBuf.appendFixed64, GoBuf.appendBytes, bind, Res.bind, pure]; grind)
 theorem wAlwaysString_shape (oracle : Nat → Bytes) (field : Int) (enc : Buf) (v : GoVal .string) :
-    wAlwaysString oracle field enc v = gwAlways oracle 2 (lenPrefixed v) field enc v := rfl
+    wAlwaysString oracle field enc v = gwAlways oracle 2 (lenPrefixed v) field enc v := by
+  first
+  | rfl
+  | (unfold wAlwaysString gwAlways; simp only [GoBuf.appendTag, GoBuf.appendVarint, GoBuf.appendFixed32, GoBuf.appendFixed64, GoBuf.appendBytes, bind, Res.bind, pure]; grind)
 
 theorem wBytes_shape (oracle : Nat → Bytes) (field : Int) (enc : Buf) (v : GoVal .bytes) :
-    wBytes oracle field enc v = gwSingle oracle ((Go.len v) = (0 : Int)) 2 (lenPrefixed v) field enc v := rfl
+    wBytes oracle field enc v = gwSingle oracle ((Go.len v) = (0 : Int)) 2 (lenPrefixed v) field enc v := by
+  first
+  | rfl
+  | (unfold wBytes gwSingle; simp only [GoBuf.appendTag, GoBuf.appendVarint, GoBuf.appendFixed32, GoBuf.appendFixed64, GoBuf.appendBytes, bind, Res.bind, pure]; grind)
 theorem wAlwaysBytes_shape (oracle : Nat → Bytes) (field : Int) (enc : Buf) (v : GoVal .bytes) :
-    wAlwaysBytes oracle field enc v = gwAlways oracle 2 (lenPrefixed v) field enc v := rfl
+    wAlwaysBytes oracle field enc v = gwAlways oracle 2 (lenPrefixed v) field enc v := by
+  first
+  | rfl
+  | (unfold wAlwaysBytes gwAlways; simp only [GoBuf.appendTag, GoBuf.appendVarint, GoBuf.appendFixed32, GoBuf.appendFixed64, GoBuf.appendBytes, bind, Res.bind, pure]; grind)
 
 end instances
 
